@@ -33,11 +33,11 @@ package collections
 //@ func (*TTLMap).RemoveExpired
 //@   props C09 C14
 //@   holds m.mutex
-//@   modifies everything
+//@   modifies external, mapof(m.elements), m.expiryTimes
 //@ func (*TTLMap).RemoveLastUsed
 //@   props C09 C14
 //@   holds m.mutex
-//@   modifies everything
+//@   modifies external, mapof(m.elements), m.expiryTimes
 
 //@ pred nowsec() = lastclock / 1000000000
 //@ pred live(m *TTLMap, k string) = m.vdom[k] && m.vexp[k] > lastclock / 1000000000
